@@ -208,7 +208,7 @@ def cdcn_key(l):
     return (l.get('gen'), p.get('out'), p.get('pc'), p.get('tt'), min(len(toks), 12), tuple(sorted(set(toks)))[:8])
 
 PROPS['C12'] = dict(
-    id='C12', modules=['CollectionModel.Props.C12', 'CollectionModel.Props.C12Total', 'CollectionModel.Tie.Facts'], key=cdcn_key, nontrivial=lambda l: len(l.get('src', [])) > 0,
+    id='C12', modules=['CollectionModel.Props.C12', 'CollectionModel.Props.C12Total', 'CollectionModel.Tie.Facts', 'CollectionModel.Tie.Scanner'], key=cdcn_key, nontrivial=lambda l: len(l.get('src', [])) > 0,
     timeout=dict(quick=900, thorough=3000),
     rule="cases = one ParseSource call on one source string, observed as: the real scanner's token stream (kind, length, line, "
          "column per token), strconv's verdict on every literal token, the outcome (value / located diagnostic with token kind, "
@@ -223,7 +223,7 @@ PROPS['C12'] = dict(
 )
 
 PROPS['C11'] = dict(
-    id='C11', modules=['CollectionModel.Props.C11', 'CollectionModel.Props.C11Complete'], key=lambda l: (l.get('gen'), (l.get('parse') or {}).get('out'), min(l.get('size', 0), 12), tuple(sorted(set(t.get('tt') for t in l.get('toks', []))))[:9], min(len(l.get('toks', [])), 40) // 4),
+    id='C11', modules=['CollectionModel.Props.C11', 'CollectionModel.Props.C11Complete', 'CollectionModel.Tie.Scanner'], key=lambda l: (l.get('gen'), (l.get('parse') or {}).get('out'), min(l.get('size', 0), 12), tuple(sorted(set(t.get('tt') for t in l.get('toks', []))))[:9], min(len(l.get('toks', [])), 40) // 4),
     nontrivial=lambda l: True, timeout=dict(quick=900, thorough=3000),
     rule="cases = one sentence derived from the grammar of Syntax.cdsn by a recursive generator (inline and multi-line item "
          "lists, the empty forms, every literal alternative incl. boundary literals, all seven contexts, nesting to depth 4, "
@@ -236,7 +236,7 @@ PROPS['C11'] = dict(
 )
 
 PROPS['C10'] = dict(
-    id='C10', modules=['CollectionModel.Props.C10', 'CollectionModel.Tie.Facts'],
+    id='C10', modules=['CollectionModel.Props.C10', 'CollectionModel.Props.C10Round', 'CollectionModel.Tie.Facts', 'CollectionModel.Tie.Scanner'],
     key=lambda l: (l.get('k'), l.get('gen'), l.get('fmt'), (l.get('parse') or {}).get('out'), l.get('canon'), l.get('depth'), l.get('shape'), l.get('status'),
                    min(len(l.get('leaves') or []), 12), min(len(l.get('text') or []) // 40, 10), tuple(sorted(set(x[0].get('t') for x in (l.get('leaves') or []))))),
     nontrivial=lambda l: True, timeout=dict(quick=900, thorough=3000),
@@ -248,8 +248,8 @@ PROPS['C10'] = dict(
          "kinds nested to depth 0..4 with sizes 0..40 (queues within capacity), narrower numeric widths (text fixpoint only), nests "
          "of depth 1..11 around the limit of 8, 30 call sequences, 5 cyclic shapes",
     exhaustive_subspaces="every listed boundary leaf as the only item and as a pair of items of a List",
-    level_text="Lean 4 theorems: C10_format_total (the formatter model – kind dispatch, elision at the limit, empty marker, inline singleton one level deeper, multi-line arm, associations – returns for EVERY value with fuel 3*size+1: it terminates however deep or wide), C10_elides_at_limit (at the limit a collection is written [...](Ctx) without visiting its items, hence self-containing values are formatted in finitely many steps), C10_format_pure. The round-trip equation C10_roundtrip_statement is stated in full over the three executable models (formatter, scanner, parser) but NOT proved: it is held by the correspondence run, in which the formatter model reproduces the real text, the scanner model the real tokens and the parser model the real parsed value on every generated value, and the real chain gives back an equal value and the same text.",
-    level_note="PARTIAL: the round trip rests on correspondence + the executable spec, not on a Lean proof. strconv (FormatFloat/Quote/QuoteRune/ParseFloat/Unquote) is external: leaf texts are shipped with each case and checked by scanning them. Texts of unordered Maps are compared as multisets of lines. A fatal stack overflow cannot be modelled; the cyclic cases run in a child process.",
+    level_text="Lean 4 theorems: C10_roundtrip (Props/C10Round.lean, Lemmas/ScanFormat.lean, Lemmas/RoundTrip*.lean) – THE ROUND TRIP IS PROVED on the composition of the three executable models: for every value of the canonical universe (Canon: Arrays, Lists, Queues, Stacks of values, Sets as MakeFromSequence orders them, Catalogs and Maps with distinct leaf keys, every collection above the elision depth; nested and wide without bound) parse(scan(format v)) = v, with the fuel and push-back capacity the driver uses; C10_text_fixpoint (formatting what was parsed back gives the same text). The proof shows that the scanner model reads the formatter model's text as the tokens of a syntax tree whose meaning is v (rt_all: brackets, contexts, indentation, the colon-space of associations, inline singletons, multi-line sequences, the empty forms) and then applies C11_sentence_accepted. The externals (strconv) enter through the explicit hypothesis LeafLex (a leaf's text is one literal token before ']' , newline or ':' and converts back to the leaf), which the driver checks on EVERY leaf text the real formatter produced; a complete instance (booleans) shows the hypotheses satisfiable. Also C10_format_total (termination with fuel 3*size+1 for EVERY value), C10_elides_at_limit, C10_format_pure. Tied to /repo by the differential run (formatter model = real text, scanner model = real tokens, parser model = real parsed value, on every generated value), by Tie.scanner_patterns_tie / scanner_order_tie (the token regular expressions and their order re-extracted from scanner.go equal the texts the recognisers were written from) and by the run-time comparison of every recogniser with a leftmost-first matcher on the regenerated pattern trees.",
+    level_note="The theorem is about the models; the tie is sampled. strconv (FormatFloat/Quote/QuoteRune/ParseFloat/Unquote) is external: LeafLex is a hypothesis checked per shipped leaf. Narrower numeric widths are outside Canon's leaf contract (recorded finding). Texts of unordered Maps are compared as multisets of lines. A fatal stack overflow cannot be modelled; the cyclic cases run in a child process.",
 )
 
 def q_key(l):
@@ -286,7 +286,7 @@ PROPS['C05'] = dict(
 )
 
 PROPS['C06'] = dict(
-    id='C06', modules=['CollectionModel.Props.C06', 'CollectionModel.Props.C06Split'], stress='C06stress',
+    id='C06', modules=['CollectionModel.Props.C06', 'CollectionModel.Props.C06Split', 'CollectionModel.Props.C06Term', 'CollectionModel.Props.C06TermSplit', 'CollectionModel.Props.C06TermJoin'], stress='C06stress',
     key=lambda l: (l.get('k'), l.get('op'), len(l.get('input', [])), l.get('fan'), l.get('cap'), l.get('status'), l.get('mode'), l.get('steps'), l.get('elem')),
     nontrivial=lambda l: l.get('k') == 'pipe', timeout=dict(quick=900, thorough=6000),
     rule="cases = one run of {feeder, library helper goroutine(s), one reader per output} for Fork, Split or Split+Join on the real "
@@ -296,8 +296,8 @@ PROPS['C06'] = dict(
          "judged: termination, wait group back to zero, every reader saw closure, nothing after closure, exact per-output sequences; "
          "distinct = distinct (operation, length, fan-out, capacity, status, mode, number of steps)",
     exhaustive_subspaces="programs whose schedule DFS finished within the budget (count in the qmeta line)",
-    level_text="Lean 4 theorems over networks of atomic bounded FIFO queues (the abstraction C04 justifies: one writer, one reader per queue), for EVERY input stream, fan-out n >= 1, capacity and interleaving of feeder, helper goroutine(s) and readers. Fork: C06_fork_prefix_inv (read_k ++ buffered_k ++ in-flight_k ++ input queue ++ unfed = input for every output k, in every reachable state), C06_fork_final, C06_fork_no_late. Split: C06_split_inv (output k has received exactly the values at positions = k mod n of what was distributed so far, in order; distributed ++ in-flight ++ queued ++ unfed = input; the iterator position is |distributed| mod n), C06_split_final (reader k ends with splitSpec n k input: every value to exactly one output, round robin), C06_split_no_late. Split followed by Join: C06_splitjoin_inv, C06_splitjoin_final (the reader of the joined queue ends with exactly the input, in order), C06_join_stops_only_when_empty (when Join stops at the first closed and drained input no other input holds a value and Split has distributed everything: nothing is lost), C06_join_no_late. Termination and the wait group are established by exploration of the real code only.",
-    level_note="PARTIAL: termination / wait-group release by exploration (controlled scheduler, DFS by replay) and free-running runs, not by proof. The helper goroutines' iterator loops are modelled as an explicit turn counter. Real goroutine scheduling and the wait group are Go runtime facts observed by the harness.",
+    level_text="Lean 4 theorems over networks of atomic bounded FIFO queues (the abstraction C04 justifies: one writer, one reader per queue), for EVERY input stream, fan-out n >= 1, capacity and interleaving of feeder, helper goroutine(s) and readers. Fork: C06_fork_prefix_inv (read_k ++ buffered_k ++ in-flight_k ++ input queue ++ unfed = input for every output k, in every reachable state), C06_fork_final, C06_fork_no_late. Split: C06_split_inv (output k has received exactly the values at positions = k mod n of what was distributed so far, in order; distributed ++ in-flight ++ queued ++ unfed = input; the iterator position is |distributed| mod n), C06_split_final (reader k ends with splitSpec n k input: every value to exactly one output, round robin), C06_split_no_late. Split followed by Join: C06_splitjoin_inv, C06_splitjoin_final (the reader of the joined queue ends with exactly the input, in order), C06_join_stops_only_when_empty (when Join stops at the first closed and drained input no other input holds a value and Split has distributed everything: nothing is lost), C06_join_no_late. Termination is PROVED for all three networks (Props/C06Term*.lean), for every input, fan-out >= 1, capacity >= 1 and interleaving, with readers that read until ok=false: C06_fork/split/splitjoin_step_decreases (a potential counting the remaining feeds, receives, sends, reads and closes strictly decreases with every atomic step), _run_bounded (no run is longer than (2n+2)(|input|+1), 4|input|+2n+2, 6|input|+n+5 steps), _no_deadlock (every reachable non-final state has an enabled step: a full queue has a reader, an empty one a writer or a close; for Split->Join the round-robin positions agree, so Join never waits on an empty queue while Split waits on a full one), _terminates (every maximal run ends with the helper goroutine(s) at group.Done(), every queue closed and drained, every reader at ok=false holding exactly the specified stream). That the caller's wait group was incremented before the goroutine started (group.Add outside the go statement) is a fact about the Go code checked by the run only.",
+    level_note="The networks model each queue as an atomic bounded FIFO (justified by C04/C05) and the helper goroutines' iterator loops as an explicit turn counter; the theorems are about these models, tied to the code by the controlled-scheduler exploration (DFS by replay) and free-running runs. Registration of the helper with the caller's wait group before the goroutine starts, and real goroutine scheduling, are Go runtime facts observed by the harness.",
 )
 
 PROPS['C20'] = dict(
